@@ -14,6 +14,7 @@ import (
 	"math/rand"
 	"os"
 	"path/filepath"
+	"runtime"
 	"sort"
 	"strings"
 	"time"
@@ -116,6 +117,8 @@ type Obs struct {
 	Probes     []FetchObs `json:"probes"`
 	Reopened   []ListObs  `json:"reopened"`
 	ReopenSame bool       `json:"reopenSame"`
+	Retained   bool       `json:"retained"`
+	Unaliased  bool       `json:"unaliased"`
 }
 
 // ---- the instrumented target ---------------------------------------------------------------
@@ -207,6 +210,7 @@ type world struct {
 	manDigest  map[int]digest.Digest
 	manSize    map[digest.Digest]int64
 	pushedOps  map[int]*Op
+	keep       *keeper // history of everything the repository returned (nil: not kept)
 }
 
 // blobContent is the envelope labelled id: distinct for distinct labels, any size >= 24.
@@ -382,6 +386,10 @@ func (w *world) exec(o *Op) (bool, error) {
 			return false, fmt.Errorf("push without subject")
 		}
 		before := cloneMap(annos)
+		if w.keep != nil {
+			w.keep.inputs = append(w.keep.inputs, body)
+			w.keep.inMaps = append(w.keep.inMaps, annos)
+		}
 		blobDesc, manDesc, err := w.repo.PushSignature(ctx, o.Mt, body, concDesc(*o.Subject), annos)
 		if !sameMap(before, annos) {
 			return false, fmt.Errorf("PushSignature modified the caller's annotation map")
@@ -472,6 +480,8 @@ func (w *world) fetchObs(repo registry.Repository, tgt *logTarget, d ocispec.Des
 	if err != nil {
 		return fo
 	}
+	w.keep.keepBytes(body)
+	w.keep.keepList([]ocispec.Descriptor{bd})
 	fo.Ok = true
 	fo.Mt = bd.MediaType
 	id, known := w.blobByDig[digest.FromBytes(body)]
@@ -488,6 +498,7 @@ func (w *world) listObs(repo registry.Repository, tgt *logTarget, q Desc) ListOb
 	}
 	var descs []ocispec.Descriptor
 	err := repo.ListSignatures(context.Background(), concDesc(q), func(ms []ocispec.Descriptor) error {
+		w.keep.keepList(ms) // the callback's own slice, not a copy
 		descs = append(descs, ms...)
 		return nil
 	})
@@ -831,7 +842,7 @@ func (g *gen) sequence(maxPush, maxExtra int) []Op {
 
 // ---- one case ------------------------------------------------------------------------------
 
-func runCase(c *common.Ctx, n int, in *Input, nSubj int, sizes map[int]int64, probeRand *rand.Rand) (Obs, error) {
+func runCase(c *common.Ctx, n int, in *Input, nSubj int, sizes map[int]int64, probeRand *rand.Rand) (obs Obs, err error) {
 	dir := filepath.Join(c.WorkDir, fmt.Sprintf("layout-%d", n))
 	defer os.RemoveAll(dir)
 	w, err := newWorld(dir, in, nSubj)
@@ -839,7 +850,13 @@ func runCase(c *common.Ctx, n int, in *Input, nSubj int, sizes map[int]int64, pr
 		return Obs{}, err
 	}
 	w.blobSize = sizes
-	obs := Obs{Steps: []StepObs{}, Probes: []FetchObs{}, Reopened: []ListObs{}}
+	w.keep = &keeper{}
+	for _, o := range in.Ops {
+		if o.Bsize > keepMaxOne {
+			w.keep.allowBig = true // the large-envelope scenario: keep those results too
+		}
+	}
+	obs = Obs{Steps: []StepObs{}, Probes: []FetchObs{}, Reopened: []ListObs{}, Retained: true, Unaliased: true}
 	for k := range in.Ops {
 		o := &in.Ops[k]
 		ok, err := w.exec(o)
@@ -851,6 +868,10 @@ func runCase(c *common.Ctx, n int, in *Input, nSubj int, sizes map[int]int64, pr
 			so.Lists = append(so.Lists, w.listObs(w.repo, w.tgt, q))
 		}
 		obs.Steps = append(obs.Steps, so)
+		// every result returned during earlier steps must still be what it was
+		if !w.keep.quick() || (k%4 == 3 && !w.keep.listsIntact()) {
+			obs.Retained = false
+		}
 	}
 	// probes: FetchSignatureBlob with hand-made descriptors
 	in.Probes = []Desc{}
@@ -898,7 +919,25 @@ func runCase(c *common.Ctx, n int, in *Input, nSubj int, sizes map[int]int64, pr
 		}
 		obs.Probes = append(obs.Probes, w.fetchObs(w.repo, w.tgt, ocispec.Descriptor{MediaType: p.Mt, Digest: dg, Size: p.Size}))
 	}
+	// the history of results: several repositories, repeated rounds, everything kept and re-compared
+	if !w.historyPhase(in, probeRand, dir) {
+		obs.Retained = false
+	}
 	// the layout re-opened from disk
+	defer func() {
+		if !w.keep.full() {
+			obs.Retained = false
+		}
+		if !w.keep.aliasFree() {
+			obs.Unaliased = false
+		}
+		if !w.scribbleAndRelist(in, obs.Steps[len(obs.Steps)-1].Lists) {
+			obs.Unaliased = false
+		}
+		if w.keep.broken != "" {
+			c.Count("history-broken: " + w.keep.broken)
+		}
+	}()
 	obs.ReopenSame = true
 	store2, err := oci.New(dir)
 	repo3, err3 := registry.NewOCIRepository(dir, registry.RepositoryOptions{})
@@ -927,6 +966,79 @@ func runCase(c *common.Ctx, n int, in *Input, nSubj int, sizes map[int]int64, pr
 		}
 	}
 	return obs, nil
+}
+
+// historyPhase fetches everything that is listed again and again - through the sequence's
+// repository, a second Repository over the same store and one over the layout re-opened from disk,
+// in listing order, by descending size (a later result then fits into whatever held an earlier
+// one) and shuffled - on a single P so that anything recycled per P is recycled, keeping every
+// result and re-comparing all earlier ones after every call.
+func (w *world) historyPhase(in *Input, r *rand.Rand, dir string) bool {
+	prev := runtime.GOMAXPROCS(1)
+	defer runtime.GOMAXPROCS(prev)
+	ctx := context.Background()
+	ok := w.keep.quick()
+	repos := []registry.Repository{w.repo,
+		registry.NewRepository(&logTarget{GraphTarget: w.store, digestOnly: w.tgt.digestOnly, known: w.tgt.known})}
+	if r3, err := registry.NewOCIRepository(dir, registry.RepositoryOptions{}); err == nil {
+		repos = append(repos, r3)
+	}
+	sizeOf := map[digest.Digest]int{}
+	pass := 0
+	for round := 0; round < 2; round++ {
+		for _, repo := range repos {
+			var descs []ocispec.Descriptor
+			for _, q := range in.Queries {
+				_ = repo.ListSignatures(ctx, concDesc(q), func(ms []ocispec.Descriptor) error {
+					w.keep.keepList(ms)
+					descs = append(descs, ms...)
+					return nil
+				})
+			}
+			switch pass % 3 {
+			case 1:
+				sort.SliceStable(descs, func(i, j int) bool { return sizeOf[descs[i].Digest] > sizeOf[descs[j].Digest] })
+			case 2:
+				r.Shuffle(len(descs), func(i, j int) { descs[i], descs[j] = descs[j], descs[i] })
+			}
+			pass++
+			for _, d := range descs {
+				body, bd, err := repo.FetchSignatureBlob(ctx, d)
+				if err != nil {
+					continue
+				}
+				sizeOf[d.Digest] = len(body)
+				w.keep.keepBytes(body)
+				w.keep.keepList([]ocispec.Descriptor{bd})
+				if !w.keep.quick() {
+					ok = false
+				}
+			}
+			if !w.keep.listsIntact() {
+				ok = false
+			}
+		}
+	}
+	if !w.keep.full() {
+		ok = false
+	}
+	return ok
+}
+
+// scribbleAndRelist overwrites every earlier result and every caller-owned input, then lists and
+// fetches everything once more: it must come out as in the last step.
+func (w *world) scribbleAndRelist(in *Input, last []ListObs) bool {
+	w.keep.scribble()
+	for qi, q := range in.Queries {
+		lo := w.listObs(w.repo, w.tgt, q)
+		a, _ := json.Marshal(lo)
+		b, _ := json.Marshal(last[qi])
+		if string(a) != string(b) {
+			w.keep.fail("after the caller overwrote earlier results and its own inputs the repository returns something else")
+			return false
+		}
+	}
+	return true
 }
 
 func count(c *common.Ctx, in *Input, obs *Obs) {
@@ -973,7 +1085,7 @@ func count(c *common.Ctx, in *Input, obs *Obs) {
 func Run(c *common.Ctx) error {
 	nSeq, maxPush, maxExtra := 260, 8, 7
 	if c.Thorough() {
-		nSeq, maxPush, maxExtra = 2000, 12, 10
+		nSeq, maxPush, maxExtra = 1500, 12, 10
 	}
 	for n := 0; n < nSeq; n++ {
 		g := &gen{r: c.Rand, thorough: c.Thorough(), nSubj: 1 + c.Rand.Intn(3), sizes: map[int]int64{}}
